@@ -332,6 +332,9 @@ pub enum Ref<'gc> {
     P(Gc<'gc, PNode<'gc>>),
     DB(Gc<'gc, DynBox<'gc>>),
     NT(Gc<'gc, NtNode>),
+    /// one-element slice of `Hdr`: the destructor and the trace probe live in the *element*, the
+    /// header is `()` (the thin form has no drop glue)
+    HSl(gc_arena::GcSlice<'gc, Hdr>),
     Set(DynamicRootSet<'gc>, usize),
 }
 
@@ -359,6 +362,7 @@ pub enum WeakRef<'gc> {
     P(GcWeak<'gc, PNode<'gc>>),
     DB(GcWeak<'gc, DynBox<'gc>>),
     NT(GcWeak<'gc, NtNode>),
+    HSl(GcWeak<'gc, [Hdr], gc_arena::gc::GcKind<gc_arena::gc::Fat, (), gc_arena::slice::SlicePtrMeta>>),
 }
 
 macro_rules! each_gc {
@@ -382,6 +386,7 @@ macro_rules! each_gc {
             Ref::P($g) => $e,
             Ref::DB($g) => $e,
             Ref::NT($g) => $e,
+            Ref::HSl($g) => $e,
             Ref::Set(_, _) => unreachable!("set handled separately"),
         }
     };
@@ -405,6 +410,7 @@ macro_rules! each_weak {
             WeakRef::P($g) => $e,
             WeakRef::DB($g) => $e,
             WeakRef::NT($g) => $e,
+            WeakRef::HSl($g) => $e,
         }
     };
 }
@@ -446,6 +452,7 @@ impl<'gc> Ref<'gc> {
             Ref::P(g) => WeakRef::P(Gc::downgrade(g)),
             Ref::DB(g) => WeakRef::DB(Gc::downgrade(g)),
             Ref::NT(g) => WeakRef::NT(Gc::downgrade(g)),
+            Ref::HSl(g) => WeakRef::HSl(Gc::downgrade(g)),
             Ref::Set(_, _) => return None,
         })
     }
@@ -455,7 +462,7 @@ impl<'gc> Ref<'gc> {
         match self {
             Ref::D(g) => g.strong(),
             Ref::R(g) => g.s.iter().map(|c| c.get()).collect(),
-            Ref::L(_) | Ref::LS(_) | Ref::Str(_) | Ref::TStr(_) | Ref::NT(_) => vec![],
+            Ref::L(_) | Ref::LS(_) | Ref::Str(_) | Ref::TStr(_) | Ref::NT(_) | Ref::HSl(_) => vec![],
             Ref::LB(g) => vec![g.get()],
             Ref::RB(g) => g.borrow().s.to_vec(),
             Ref::OB(g) => vec![g.get().copied()],
@@ -505,6 +512,7 @@ impl<'gc> Ref<'gc> {
             Ref::P(g) => Some((g.tok.id, g.pattern)),
             Ref::DB(g) => Some((g.tok.id, g.pattern)),
             Ref::NT(g) => Some((g.tok.id, g.pattern)),
+            Ref::HSl(g) => g.first().map(|h| (h.tok.id, h.pattern)),
             Ref::LB(_) | Ref::OB(_) | Ref::Sl(_) | Ref::TSl(_) | Ref::Arr(_) | Ref::Set(_, _) => None,
         }
     }
@@ -551,6 +559,7 @@ impl<'gc> WeakRef<'gc> {
             WeakRef::P(g) => Ref::P(g.upgrade(mc)?),
             WeakRef::DB(g) => Ref::DB(g.upgrade(mc)?),
             WeakRef::NT(g) => Ref::NT(g.upgrade(mc)?),
+            WeakRef::HSl(g) => Ref::HSl(g.upgrade(mc)?),
         })
     }
 
@@ -571,6 +580,7 @@ impl<'gc> WeakRef<'gc> {
             WeakRef::P(g) => Ref::P(g.resurrect(fc)?),
             WeakRef::DB(g) => Ref::DB(g.resurrect(fc)?),
             WeakRef::NT(g) => Ref::NT(g.resurrect(fc)?),
+            WeakRef::HSl(g) => Ref::HSl(g.resurrect(fc)?),
         })
     }
 }
